@@ -715,6 +715,11 @@ def run(rep, tier):
         np_ += parity_rule(rep, u)
         ndom += scalar_domain_rule(rep, u)
         nspec += affine_rule(rep, u)
+        # the codec bodies the byte API relies on (C01's functions, re-checked here for the fill clause)
+        from props import memsafe
+        for f_ in u.function_list:
+            if f_.name.startswith(("bn_digits_export_", "bn_digits_import_", "bn_export_", "bn_import_")) and f_.has_cfg:
+                memsafe.tail_fill_rule(rep, f_)
         if lab != "ecdsa:test":      # the test configuration defines EC_DISABLE_PUB_KEY_CHK
             nv += validation_rule(rep, u)
     # cofactor multiplication in ecdsa_dh uses curve->h from the built-in table: the table rule of C02 (incl. the cofactor) is
